@@ -1,157 +1,14 @@
 // ===================================================================================================
-// Most general conformant peers of a unary operator (one upstream, one sink).  DESIGN §2.2-2.5.
+// Most general conformant peers of a unary operator (one upstream, one sink).  DESIGN 2.2-2.5.
 // Verified code, not axioms: each peer applies its event to the ghost state and then performs any
 // finite sequence of protocol-admissible calls into the operator's own handlers.
-// Text parameters: $OP operator name, $TP type parameters, $G ghost type, $HEAP heap type,
-// $I upstream data type, $O downstream data type.
+// Text parameters: $OP operator name, $TP type parameters, $G ghost type, $GNAME its constructor,
+// $HEAP heap type, $I upstream data type, $O downstream data type.
 // Profile switch `c.pullable` (profile P): the upstream emits Data only against an outstanding Pull,
 // the sink pulls only when it has no Pull outstanding.  Profile R is `!c.pullable`.
 // ===================================================================================================
-#[derive(Clone, Copy)] pub struct UpTb {}
-#[derive(Clone, Copy)] pub struct UpSrc {}
-#[derive(Clone, Copy)] pub struct SinkH {}
-impl UpSrc { pub fn into(self) -> (r: Self) ensures r == self { self } }
-
-impl<$TP> Handle<$G, Message<$O, Tok_sink_talkback>> for SinkH {
-    type HH = $HEAP;
-    type CC = Cap;
-    open spec fn gate(&self, k: int, h: $HEAP, g: $G, c: Cap, m: Message<$O, Tok_sink_talkback>) -> bool {
-        if k == $GATE_NO_PULL_DOWN { !(m is Pull) }
-        else if k == $GATE_GREET_ONCE { m is Handshake ==> g.dn.phase == Dn::NotGreeted }
-        else if k == $GATE_GREET_FIRST { !(m is Handshake) ==> g.dn.phase != Dn::NotGreeted }
-        else if k == $GATE_AFTER_TERM { !(m is Handshake) ==> g.dn.phase != Dn::EndedByUs }
-        else if k == $GATE_AFTER_DISPOSAL { !(m is Handshake) ==> g.dn.phase != Dn::EndedBySink }
-        else if k == $GATE_NO_ORPHAN { m is Terminate || m is Error ==> g.up.phase != Up::Live }
-        else if k == $GATE_UNREQUESTED { m is Data && c.pullable ==> g.dn.data.len() < g.dn.pulls }
-        else { true }
-    }
-    open spec fn post(&self, g: $G, m: Message<$O, Tok_sink_talkback>) -> $G { $GNAME { dn: dn_send(g.dn, m), ..g } }
-    open spec fn needs_inv(&self, g: $G, m: Message<$O, Tok_sink_talkback>) -> bool { !(m is Terminate || m is Error) }
-}
-impl SinkH {
-    /// the operator delivers `m` to its sink
-    #[verifier::exec_allows_no_decreases_clause]
-    pub fn call<$TP>(&self, h: &mut $HEAP, g: &mut Ghost<$G>, c: &Cap, m: Message<$O, Tok_sink_talkback>)
-        requires
-            GATES!(self, *old(h), old(g)@, *c, m),
-            self.needs_inv(old(g)@, m) ==> INV!(*old(h), self.post(old(g)@, m), *c),
-        ensures
-            self.needs_inv(old(g)@, m) ==> INV!(*final(h), final(g)@, *c),
-            mono(*old(h), self.post(old(g)@, m), *final(h), final(g)@),
-            sink_rel(*old(h), self.post(old(g)@, m), *final(h), final(g)@, *c),
-            !self.needs_inv(old(g)@, m) ==> *final(h) == *old(h) && final(g)@ == self.post(old(g)@, m),
-    {
-        proof { g@ = self.post(g@, m); }
-        if matches!(m, Message::Terminate | Message::Error(_)) { return; }  // a terminated sink is silent
-        let ghost h0 = *h; let ghost g0 = g@;
-        loop
-            invariant
-                INV!(*h, g@, *c),
-                mono(h0, g0, *h, g@), sink_rel(h0, g0, *h, g@, *c),
-        {
-            if nondet_bool() { break; }
-            if ghost_test(Ghost(g@.dn.phase == Dn::Live)) {
-                if nondet_bool() {
-                    if !c.pullable || ghost_test(Ghost(g@.dn.pulls <= g@.dn.data.len())) {
-                        $OP__sink_talkback(h, g, c, Message::Pull);
-                    }
-                }
-                else if nondet_bool() { $OP__sink_talkback(h, g, c, Message::Terminate); }
-                else { $OP__sink_talkback(h, g, c, Message::Error(nondet_u64())); }
-            }
-        }
-    }
-}
-impl<$TP> Handle<$G, Message<Never, Never>> for UpTb {
-    type HH = $HEAP;
-    type CC = Cap;
-    open spec fn gate(&self, k: int, h: $HEAP, g: $G, c: Cap, m: Message<Never, Never>) -> bool {
-        if k == $GATE_UP_KIND { m is Pull || m is Terminate || m is Error }
-        else if k == $GATE_UP_GREETED { g.up.phase != Up::Idle && g.up.phase != Up::Subscribing }
-        else if k == $GATE_UP_PULL_LIVE { m is Pull ==> !up_over(g.up.phase) }
-        else if k == $GATE_UP_TERM_ONCE { !(m is Pull) ==> g.up.phase != Up::EndedByUs }
-        else if k == $GATE_UP_TERM_SELF { !(m is Pull) ==> g.up.phase != Up::EndedBySelf && g.up.phase != Up::ErroredBySelf }
-        else { true }
-    }
-    open spec fn post(&self, g: $G, m: Message<Never, Never>) -> $G { $GNAME { up: up_send(g.up, m), ..g } }
-    open spec fn needs_inv(&self, g: $G, m: Message<Never, Never>) -> bool { m is Pull }
-}
-impl UpTb {
-    /// the operator talks to its upstream on the talkback it was greeted with
-    #[verifier::exec_allows_no_decreases_clause]
-    pub fn call<$TP>(&self, h: &mut $HEAP, g: &mut Ghost<$G>, c: &Cap, m: Message<Never, Never>)
-        requires
-            GATES!(self, *old(h), old(g)@, *c, m),
-            self.needs_inv(old(g)@, m) ==> INV!(*old(h), self.post(old(g)@, m), *c),
-        ensures
-            self.needs_inv(old(g)@, m) ==> INV!(*final(h), final(g)@, *c),
-            self.needs_inv(old(g)@, m) ==> mono(*old(h), self.post(old(g)@, m), *final(h), final(g)@),
-            self.needs_inv(old(g)@, m) ==> up_rel(*old(h), self.post(old(g)@, m), *final(h), final(g)@, *c),
-            !self.needs_inv(old(g)@, m) ==> *final(h) == *old(h) && final(g)@ == self.post(old(g)@, m),
-    {
-        proof { g@ = self.post(g@, m); }
-        if matches!(m, Message::Terminate | Message::Error(_)) { return; }   // a terminated source is silent
-        up_events(h, g, c);
-    }
-}
-/// any finite sequence of admissible upstream events
-#[verifier::exec_allows_no_decreases_clause]
-pub fn up_events<$TP>(h: &mut $HEAP, g: &mut Ghost<$G>, c: &Cap)
-    requires
-        INV!(*old(h), old(g)@, *c),
-    ensures
-        INV!(*final(h), final(g)@, *c),
-        mono(*old(h), old(g)@, *final(h), final(g)@), up_rel(*old(h), old(g)@, *final(h), final(g)@, *c),
-{
-    let ghost h0 = *h; let ghost g0 = g@;
-    loop
-        invariant
-            INV!(*h, g@, *c),
-            mono(h0, g0, *h, g@), up_rel(h0, g0, *h, g@, *c),
-    {
-        if nondet_bool() { break; }
-        if ghost_test(Ghost(g@.up.phase == Up::Live)) {
-            if nondet_bool() {
-                if !c.pullable || ghost_test(Ghost(g@.up.data.len() < g@.up.pulls)) {
-                    $OP__source_talkback(h, g, c, Message::Data(nondet::<$I>()));
-                }
-            }
-            else if nondet_bool() { $OP__source_talkback(h, g, c, Message::Terminate); }
-            else { $OP__source_talkback(h, g, c, Message::Error(nondet_u64())); }
-        }
-    }
-}
-impl<$TP> Handle<$G, Message<Never, Tok_source_talkback>> for UpSrc {
-    type HH = $HEAP;
-    type CC = Cap;
-    open spec fn gate(&self, k: int, h: $HEAP, g: $G, c: Cap, m: Message<Never, Tok_source_talkback>) -> bool {
-        if k == $GATE_SUB_KIND { m is Handshake }
-        else if k == $GATE_SUB_ONCE { g.up.phase == Up::Idle }
-        else if k == $GATE_SUB_OVER { !dn_over(g.dn.phase) }
-        else { true }
-    }
-    open spec fn post(&self, g: $G, m: Message<Never, Tok_source_talkback>) -> $G { $GNAME { up: UpLink { phase: Up::Subscribing, ..g.up }, ..g } }
-    open spec fn needs_inv(&self, g: $G, m: Message<Never, Tok_source_talkback>) -> bool { true }
-}
-impl UpSrc {
-    /// the operator subscribes to its upstream source
-    #[verifier::exec_allows_no_decreases_clause]
-    pub fn call<$TP>(&self, h: &mut $HEAP, g: &mut Ghost<$G>, c: &Cap, m: Message<Never, Tok_source_talkback>)
-        requires
-            GATES!(self, *old(h), old(g)@, *c, m),
-            self.needs_inv(old(g)@, m) ==> INV!(*old(h), self.post(old(g)@, m), *c),
-        ensures
-            INV!(*final(h), final(g)@, *c),
-            mono(*old(h), self.post(old(g)@, m), *final(h), final(g)@),
-    {
-        proof { g@ = self.post(g@, m); }
-        // a conformant source greets inside the subscribing call ...
-        $OP__source_talkback(h, g, c, Message::Handshake(UpTb {}));
-        // ... and may emit, end or fail before returning
-        up_events(h, g, c);
-    }
-}
-
+//@include env_dn.rs OP=$OP TP="$TP" G="$G" GNAME=$GNAME HEAP=$HEAP O=$O
+//@include env_up.rs OP=$OP TP="$TP" G="$G" GNAME=$GNAME HEAP=$HEAP I=$I
 /// Every history of one subscription with conformant peers is an execution of `world`.
 #[verifier::exec_allows_no_decreases_clause]
 pub fn world<$TP>(c: &Cap)
